@@ -76,6 +76,29 @@ func evalC01(os openSet, rec *hx.Rec) error {
 	return nil
 }
 
+// manySet: `total` openings of two polynomials, the first `atOne` of them at index z, every fifth one through the
+// pointer of an earlier opening of the same polynomial.
+func manySet(total, atOne, z int, kind string) openSet {
+	os := openSet{Label: "many", Shape: fmt.Sprintf("forced:%d@%d/%d", atOne, z, total), Polys: []polySpec{{Kind: kind, Seed: uint64(hx.Shard() + 1)}, {Kind: "sparse", Seed: 9, Idx: []int{3, 77, 200}}}}
+	for i := 0; i < total; i++ {
+		o := opening{Poly: i % 2, Z: z}
+		if i >= atOne {
+			o.Z = (z + 1 + i) & 255
+		}
+		if i%5 == 4 {
+			o.Share = i - 1 // reuse the pointer of the previous opening of the same polynomial
+			o.Poly = (i - 2) % 2
+		}
+		os.Open = append(os.Open, o)
+	}
+	for i := range os.Open { // shared pointers must refer to an opening of the same polynomial
+		if sh := os.Open[i].Share; sh > 0 {
+			os.Open[i].Poly = os.Open[sh-1].Poly
+		}
+	}
+	return os
+}
+
 var c01Part = hx.NewPart("C01", "complete", genC01, evalC01)
 
 func TestC01(t *testing.T) {
@@ -84,26 +107,7 @@ func TestC01(t *testing.T) {
 	s.Guard(func() { Cfg() })
 	// forced shapes that a drawn size rarely reaches: a multiple of 256 openings at ONE index, and opening counts around the
 	// window thresholds of the verifier's MSM (49, 129, 321, 769, 1793; 4097 in the thorough tier)
-	many := func(total, atOne, z int, kind string) openSet {
-		os := openSet{Label: "many", Shape: fmt.Sprintf("forced:%d@%d/%d", atOne, z, total), Polys: []polySpec{{Kind: kind, Seed: uint64(hx.Shard() + 1)}, {Kind: "sparse", Seed: 9, Idx: []int{3, 77, 200}}}}
-		for i := 0; i < total; i++ {
-			o := opening{Poly: i % 2, Z: z}
-			if i >= atOne {
-				o.Z = (z + 1 + i) & 255
-			}
-			if i%5 == 4 {
-				o.Share = i - 1 // reuse the pointer of the previous opening of the same polynomial
-				o.Poly = (i - 2) % 2
-			}
-			os.Open = append(os.Open, o)
-		}
-		for i := range os.Open { // shared pointers must refer to an opening of the same polynomial
-			if sh := os.Open[i].Share; sh > 0 {
-				os.Open[i].Poly = os.Open[sh-1].Poly
-			}
-		}
-		return os
-	}
+	many := manySet
 	forced := []openSet{many(256, 256, 7, "dense"), many(296, 256, 200, "ramp"), many(525, 512, 0, "dense"), many(257, 255, 31, "dense")}
 	thresholds := []int{49, 129, 321, 769, 1793}
 	if hx.Thorough() {
@@ -114,6 +118,7 @@ func TestC01(t *testing.T) {
 	}
 	for i, f := range forced {
 		if hx.Thorough() || hx.Sharded(i) {
+			f.ShareY = i%2 == 1 // equal claimed values passed through one shared *fr.Element
 			c01Part.EvalCase(s, f)
 		}
 	}
@@ -261,7 +266,7 @@ var pointClasses = []string{"0", "1", "2", "7f", "80", "fe", "ff", "100", "101",
 var montInv256 = new(big.Int).ModInverse(new(big.Int).Lsh(big.NewInt(1), 256), ref.R)
 
 func genPointHex(t *rapid.T) string {
-	switch rapid.IntRange(0, 7).Draw(t, "point_class") {
+	switch rapid.IntRange(0, 8).Draw(t, "point_class") {
 	case 0, 1:
 		return rapid.SampledFrom(pointClasses).Draw(t, "point_fixed")
 	case 2:
@@ -281,11 +286,30 @@ func genPointHex(t *rapid.T) string {
 	case 5: // small internal (Montgomery) representation
 		k := big.NewInt(int64(rapid.IntRange(0, 600).Draw(t, "point_mont")))
 		return hx.HexBig(k.Mul(k, montInv256).Mod(k, ref.R))
+	case 7: // a denominator of the barycentric formula becomes +-1 or 2: z = i + c/A'(i)
+		i := rapid.SampledFrom([]int{0, 1, 2, 127, 128, 200, 254, 255}).Draw(t, "point_di")
+		if rapid.Bool().Draw(t, "point_di_any") {
+			i = rapid.IntRange(0, 255).Draw(t, "point_di_n")
+		}
+		return hx.HexBig(unitDenominatorPoint(i, rapid.SampledFrom([]int64{1, -1, 2}).Draw(t, "point_dc")))
 	case 6: // limb-pattern internal representation
 		raw := scalarSpec{Kind: "limbs", Seed: rapid.Uint64().Draw(t, "point_ms"), Digits: rapid.SliceOfN(rapid.IntRange(0, 6), 4, 4).Draw(t, "point_ml")}.value()
 		return hx.HexBig(raw.Mul(raw, montInv256).Mod(raw, ref.R))
 	}
 	return hx.HexBig(hx.ExpandFr(rapid.Uint64().Draw(t, "point_seed"), "point", 0))
+}
+
+// unitDenominatorPoint returns z = i + c/A'(i) (A'(i) = prod_{j != i} (i - j)): the i-th barycentric denominator A'(i)(z - i) is c.
+func unitDenominatorPoint(i int, c int64) *big.Int {
+	d := big.NewInt(1)
+	for j := 0; j < 256; j++ {
+		if j != i {
+			d.Mul(d, big.NewInt(int64(i-j)))
+			d.Mod(d, ref.R)
+		}
+	}
+	z := ref.FrMul(ref.FrMod(big.NewInt(c)), ref.FrInv(d))
+	return ref.FrAdd(z, big.NewInt(int64(i)))
 }
 
 // forcedPoints are evaluated in every shard of C03/C04 with a shard-specific dense polynomial.
@@ -295,6 +319,7 @@ func forcedPoints() []string {
 		v := big.NewInt(k)
 		pts = append(pts, hx.HexBig(v.Mul(v, montInv256).Mod(v, ref.R)))
 	}
+	pts = append(pts, hx.HexBig(unitDenominatorPoint(0, 1)), hx.HexBig(unitDenominatorPoint(255, 1)), hx.HexBig(unitDenominatorPoint(128, -1)), hx.HexBig(unitDenominatorPoint(7, 2)))
 	return pts
 }
 
@@ -374,6 +399,17 @@ func TestC03(t *testing.T) {
 				c03Multi.EvalCase(s, c03Case{Set: set, Rep2: (i + j) % 4})
 			}
 		}
+	}
+	// statements beyond the block sizes of the r^i weights, and adjacent identical openings (same commitment, same index)
+	for i, n := range []int{1025, 2049, 1030} {
+		if hx.Sharded(i) && (i < 2 || hx.Thorough()) {
+			c03Multi.EvalCase(s, c03Case{Set: manySet(n, 3, 100, []string{"dense", "ramp"}[i%2]), Rep2: i % 4})
+		}
+	}
+	if hx.Sharded(3) || hx.Thorough() {
+		dup := openSet{Label: "dup", Shape: "forced:adjacent_duplicates", Polys: []polySpec{{Kind: "dense", Seed: uint64(hx.Seed())}, {Kind: "ramp", Seed: 3}},
+			Open: []opening{{Poly: 0, Z: 5}, {Poly: 0, Z: 5}, {Poly: 1, Z: 5}, {Poly: 0, Z: 5, Share: 1}, {Poly: 0, Z: 5, Rep: 3, Lambda: 9}, {Poly: 1, Z: 6}, {Poly: 1, Z: 6}}}
+		c03Multi.EvalCase(s, c03Case{Set: dup, Rep2: 1})
 	}
 	c03Multi.Run(s, hx.PerShard(hx.Pick(480, 6400)))
 	c03IPA.Run(s, hx.PerShard(hx.Pick(160, 2400)))
